@@ -27,10 +27,11 @@ def known_ids():
 
 # ---------------------------------------------------------------- schema-aware rewriting of MIR JSON
 class _Rw:
-    def __init__(self, lmap, b0, upvars=None):
+    def __init__(self, lmap, b0, upvars=None, p0=0):
         self.lmap = lmap          # callee local -> caller local
         self.b0 = b0
         self.upvars = upvars      # coroutine bodies: captured-variable index -> caller local
+        self.p0 = p0              # offset of the callee's promoted constants in the caller's table
 
     def local(self, l):
         return self.lmap[l]
@@ -69,6 +70,8 @@ class _Rw:
             return x                                  # a span
         if isinstance(x.get("l"), int) and "k" not in x:
             return self.place(x)
+        if isinstance(x.get("promoted"), int) and "s" in x:
+            return dict(x, promoted=x["promoted"] + self.p0)
         return {k: self.val(v) for k, v in x.items()}
 
     def stmt(self, s):
@@ -172,13 +175,15 @@ def _creation_of(mir, poll_t, hid):
     return None
 
 
-def _inline_sync(c_mir, bi, h):
+def _inline_sync(c, c_mir, bi, h):
     hm = h["mir"]
+    p0 = len(c.setdefault("promoted", []))
+    c["promoted"].extend(h.get("promoted", []))
     t = c_mir["blocks"][bi]["t"]
     l0 = len(c_mir["locals"])
     b0 = len(c_mir["blocks"])
     c_mir["locals"].extend(copy.deepcopy(hm["locals"]))
-    rw = _Rw({i: l0 + i for i in range(len(hm["locals"]))}, b0)
+    rw = _Rw({i: l0 + i for i in range(len(hm["locals"]))}, b0, p0=p0)
     tgt = t.get("t")
     for hb in hm["blocks"]:
         nb = {"s": [rw.stmt(s) for s in hb["s"]]}
@@ -232,7 +237,9 @@ def _inline_async(c, c_mir, h, cb, upmap):
         lmap = {i: l0 + i for i in range(len(cm["locals"]))}
         if c.get("kind") == "coroutine" and len(cm["locals"]) > 2:
             lmap[2] = 2          # the resume argument (task context) is the caller's own
-        rw = _Rw(lmap, b0, upvars={k: argl[p] for k, p in upmap.items() if p in argl})
+        p0 = len(c.setdefault("promoted", []))
+        c["promoted"].extend(cb.get("promoted", []))
+        rw = _Rw(lmap, b0, upvars={k: argl[p] for k, p in upmap.items() if p in argl}, p0=p0)
         rdest = pt["dest"]
         # where the caller goes once the future is ready: skip the Pending arm of the `match poll(..)`
         after = pt.get("t")
@@ -314,7 +321,7 @@ def apply(crate):
                         continue
                     sites = [bi for bi, bl in enumerate(mir["blocks"]) if bl["t"].get("k") == "call" and (bl["t"].get("resolved_id") or bl["t"].get("callee_id")) == hid and not bl.get("cleanup")]
                     for bi in sites:
-                        _inline_sync(mir, bi, h)
+                        _inline_sync(c, mir, bi, h)
                     if sites:
                         log.append((hid, c["id"], "sync x%d" % len(sites)))
                         any_change = True
